@@ -27,6 +27,9 @@ type RoutineContainer struct {
 	routine *runningRoutine
 	// retryBo is the retry backoff if retrying is enabled.
 	retryBo cbackoff.BackOff
+	// removedExitedCh is closed when the last instance of a routine that was
+	// removed with SetRoutine(nil) has returned. may be nil
+	removedExitedCh <-chan struct{}
 }
 
 // NewRoutineContainer constructs a new RoutineContainer.
@@ -158,12 +161,15 @@ func (k *RoutineContainer) setRoutineLocked(routine Routine, broadcast func()) (
 		k.ctx = nil
 	}
 
-	var prevExitedCh <-chan struct{}
+	prevExitedCh := k.removedExitedCh
+	k.removedExitedCh = nil
 	prevRoutine := k.routine
 	var wasReset bool
 	if prevRoutine != nil {
 		wasReset = k.ctx != nil && !prevRoutine.exited
-		prevExitedCh = prevRoutine.exitedCh
+		if prevRoutine.exitedCh != nil {
+			prevExitedCh = prevRoutine.exitedCh
+		}
 		if prevRoutine.ctxCancel != nil {
 			prevRoutine.ctxCancel()
 			prevRoutine.ctxCancel = nil
@@ -173,13 +179,21 @@ func (k *RoutineContainer) setRoutineLocked(routine Routine, broadcast func()) (
 
 	if routine != nil {
 		r := newRunningRoutine(k, routine)
+		// if the routine is started later (SetContext) it must still wait
+		// for the previous instance to return.
+		r.exitedCh = prevExitedCh
 		k.routine = r
 		if k.ctx != nil {
 			k.routine.start(k.ctx, prevExitedCh, false)
 		}
 		broadcast()
-	} else if wasReset {
-		broadcast()
+	} else {
+		// remember the exited channel: the next routine must not start
+		// before the removed instance has returned.
+		k.removedExitedCh = prevExitedCh
+		if wasReset {
+			broadcast()
+		}
 	}
 
 	return prevExitedCh, wasReset
@@ -296,6 +310,11 @@ func (r *runningRoutine) execute(
 		select {
 		case <-ctx.Done():
 			err = context.Canceled
+			// The previous instance may still be running: wait for it before
+			// closing exitedCh below, since later instances (and the waitReturn
+			// channels handed to callers) chain on exitedCh to know that all
+			// earlier instances have returned.
+			<-waitCh
 		case <-waitCh:
 		}
 	} else if ctx.Err() != nil {
